@@ -13,7 +13,7 @@
         loops writing one cell per iteration), [fill1], [acc_loop] (a counting loop that accumulates into the cell
         being written), element by element in program order.
     No proofs here. *)
-From Coq Require Import List ZArith String Bool.
+From Coq Require Import List ZArith Bool.
 From Inovesa Require Import Base.FieldKit.
 Import ListNotations.
 
@@ -23,11 +23,15 @@ Inductive rfd_stmt : Set := RDFill | RDUpdateSM.
 (** statements of the RFKickMap constructors' bodies *)
 Inductive rfk_cstmt : Set := RCCalcKick.
 
+(** the unit names Ruler::scale(unit) is asked for (an inductive instead of strings keeps the extraction of the rf family
+    free of Coq's string type); the translator refuses any other unit *)
+Inductive runit : Set := U_Meter | U_ElectronVolt | U_Hertz | U_Seconds.
+
 Record axfacts (K : Fld) := mkAx {
   ax_zerobin : K;             (* Ruler::zerobin() *)
   ax_delta : K;               (* Ruler::delta() *)
   ax_at : Z -> K;             (* Ruler::at(i) *)
-  ax_scale : string -> K }.   (* Ruler::scale(unit) *)
+  ax_scale : runit -> K }.    (* Ruler::scale(unit) *)
 Arguments mkAx {K}. Arguments ax_zerobin {K}. Arguments ax_delta {K}. Arguments ax_at {K}. Arguments ax_scale {K}.
 
 Record rfk_members (K : Fld) := mkRFK {
